@@ -5,7 +5,7 @@ TRUST = ("trusted: CPython 3.12, numpy, Cython/gcc used to stage the compiled bu
 chk("C04", "differential testing against mirrored Python evaluation (exhaustive operator grid + Hypothesis term generation)",
     "Exhaustive operator x operand-order x value-palette differential (incl. ints beyond the float range on + - * / // % and "
     "comparisons) plus generated expression trees (depth<=5) and every in-place operator on plain / composite-defined / alias-defined "
-    "locations (old array values must not be mutated), each compared by value and type (or exception type) with direct Python evaluation of the mirrored term; "
+    "locations (old array values must not be mutated) and generated SEQUENCES of in-place statements over eight start shapes (value and exact definition after each), each compared by value and type (or exception type) with direct Python evaluation of the mirrored term; "
     "decides the homomorphism on the enumerated grid and samples it on trees.",
     TRUST, "DESIGN.md 4/C04", engine="hypothesis + enumeration")
 
@@ -19,7 +19,8 @@ chk("C01", "model-based testing of generated assignment histories against a pull
 chk("C02", "trace-based model testing: generated task graphs, harness-owned start-set permutations, trace oracle with two-sided trigger bounds",
     "Generated histories over logging containers, one observed assignment repeated under drawn permutations of the sort's start set and "
     "several hash seeds; the ordered write/call trace must show the assigned location first, L <= ran <= U, each task once, every true "
-    "data-flow edge respected; cyclic graphs: termination and at-most-once.",
+    "data-flow edge respected; cyclic graphs: termination and at-most-once. Histories include target-less function tasks, whole-container readers, "
+    "generated load dumps and maintenance calls (verify / cleanup / refresh / clone); a sparse sink-heavy family.",
     TRUST + " K1-class and cyclic graphs only get the at-most-once / termination clauses.", "DESIGN.md 4/C02",
     engine="hypothesis")
 
@@ -39,15 +40,18 @@ chk("C05", "exhaustive node-class x slot enumeration (introspected) plus generat
 chk("C06", "all-pairs testing of generated paths and systematically derived near-misses against structural path equality",
     "Pools of generated access paths plus derived near-misses (type confusion, item/attribute, prefix, 1-tuple, -1/-2, keys that spell the "
     "rest of a path); every ordered pair of independently built refs is compared with structural path equality through ==, !=, hash, dict "
-    "and set membership; 10^5-key families exercise collisions of the 32-bit compiled hash; identical-structure expressions must be equal "
-    "and hash equally.",
+    "and set membership (identifiers include NFKC-unstable names next to their normal forms); 10^5-key families and five structured families "
+    "(reordered steps, repeated step, index grid, item/attribute mixes) must resolve every ref to its own entry and show >= 99 % distinct hash "
+    "values; identical-structure expressions must be equal and hash equally.",
     TRUST, "DESIGN.md 4/C06")
 
 chk("C12", "model-based round-trip testing: generated managers covering every node class, pickled, then differential follow-up histories on original and copy",
     "Generated histories plus a decoration phase that uses every expression node class; pickle.loads(pickle.dumps(manager)) must succeed, "
     "the copy must have structurally identical definitions (dump text and operand-level read-back), pass verify() and a two-sided index "
     "invariant, own distinct containers and refs; follow-up assignments applied to both, or to one side only, are compared with one pull "
-    "model per side after every step (identical behaviour and independence).",
+    "model per side after every step (identical behaviour and independence). A second, model-free differential runs on the manager's own default "
+    "container (items and attributes mixed; manager frozen when pickled; setter generated before pickling): same contents through both views, "
+    "same exception types, independence.",
     TRUST + " Only expression tasks over picklable harness containers.", "DESIGN.md 4/C12")
 
 chk("C11", "round-trip testing of generated expression programs (eval(str(e))) and model-based differential testing of dump/load and copy_expr_from",
@@ -65,7 +69,8 @@ chk("C13", "translation validation by differential execution: generated function
     "For generated acyclic managers and drawn subsets (<=4) of leaf references: gen_fun(...)(*values) in world A, the same assignments "
     "through the manager in twin world B and the pull model must leave identical containers (ZeroDivisionError proviso counted); the "
     "mk_fun source must consist of the argument assignments followed by 'target = expr' lines whose target set T satisfies L <= T <= U, "
-    "each once, ordered consistently with every true data-flow edge. Each case validates one generated program.",
+    "each once, ordered consistently with every true data-flow edge. Further functions are generated (same manager, twin manager with the same "
+    "labels) before the first is called; association probes (drawn bracketing, non-associative floats). Each case validates one generated program.",
     TRUST + " K1-class managers, math.floor/ceil/trunc and definitions with captured non-finite literals are excluded and counted.",
     "DESIGN.md 4/C13")
 
@@ -74,7 +79,8 @@ chk("C17", "stateful model-based testing: generated histories with freeze/unfree
     "in-place, unregister, container overwrite, register / unregister tasks, load in three forms, copy_expr_from, refresh, verify, cleanup, "
     "clone): a call the model says would change the expression graph must raise ValueError and leave dump(), index supports, all query "
     "answers and contents identical; other calls must succeed, leave the graph unchanged and propagate values (pull-model oracle). After "
-    "unfreeze the history continues against the model that skipped exactly the rejected calls, and the final queries equal a fresh manager's.",
+    "unfreeze the history continues against the model that skipped exactly the rejected calls, and the final queries equal a fresh manager's. "
+    "Redundant freeze / unfreeze calls are drawn (the flag does not nest).",
     TRUST, "DESIGN.md 4/C17")
 
 chk("C18", "fault injection at every crash point of a generated update, differential against a fault-free twin execution",
@@ -140,12 +146,13 @@ chk("C10", "property-based testing of generated step plans with a log-wide invar
     "other knob weights, knobs / targets disabled persistently or through step()'s temporary arguments; a plan of 1..4 step() calls: every "
     "log row and the container stay inside the closed limits, every Jacobian-step row moves each knob by at most its max_step, every write "
     "the logging container saw to a disabled knob carries its old value, temporaries are active again afterwards, and a twin problem whose "
-    "disabled targets are replaced by other functions / values / weights yields a bit-identical knob trajectory and penalties.",
+    "disabled targets are replaced by other functions / values / weights yields a bit-identical knob trajectory and penalties. Families include a "
+    "strictly positive one with optimize_log targets.",
     "trusted: CPython 3.12, numpy, Hypothesis. Tolerances: limits exact (4 ulp for weighted knobs), max_step + 2 ulp (8 ulp weighted). "
     "Bounded search (n <= 4, m <= 5, <= 16 Jacobian steps per case).", "DESIGN.md 4/C10")
 
 chk("C15", "stateful script testing of one optimizer object with an independent re-evaluation of every logged row",
-    "Generated scripts of step / solve (incl. failing) / reload(row | tag) / tag / enable / disable / clear_log calls and disable-step-enable-step episodes on one Optimize over a "
+    "Generated scripts of step / solve (incl. failing) / reload(row | tag) / tag / enable / disable / clear_log calls, disable-step-enable-step and solve-a-sub-problem-then-change-it episodes on one Optimize over a "
     "generated deterministic problem: after each step(take_best=True) that returns, the harness' evaluation is within all active "
     "tolerances or the container holds a minimum-penalty row of that call and the independently computed end penalty does not exceed the "
     "start penalty; finally EVERY row of the log is reloaded: knobs (bit-exact / 4 ulp) and active flags must be the row's, and the "
@@ -158,13 +165,14 @@ chk("C19", "grammar-based generation (own walker over calc_grammar) with a three
     "element->attribute, 1- and 2-argument functions, random inline whitespace) in natural and fully parenthesised rendering, in item and "
     "attr element mode: the deferred expression over refs, the immediate evaluation over plain data and the harness' Python evaluation "
     "of the derivation tree must agree bit for bit or all fail; after changing variables and element attributes through the manager they "
-    "must agree again and a variable defined as the deferred expression must hold the immediate value (push path).",
+    "must agree again and a variable defined as the deferred expression must hold the immediate value (push path); then every element is "
+    "REPLACED by a new object through the manager and all of it is compared once more.",
     TRUST + " When the immediate evaluation hits a division by zero nothing is required of the deferred one (documented NaN deviation); "
     "if both fail the exception types may differ (evaluation order).", "DESIGN.md 4/C19")
 
 chk("C20", "configuration-differential testing: one generated corpus interpreted under {compiled, pure} x hash seeds, canonical transcripts compared in the parent",
     "The parent generates one corpus from VERIF_SEED (manager histories, pickle and dump/load programs, expression terms over adversarial "
-    "keys, definitions through numpy- and Python-typed scalar item keys); child processes interpret every program under the Cython build of the working tree and the pure-Python build, each under "
+    "keys, definitions through numpy- and Python-typed scalar item keys, assignments of expressions with several unevaluable inputs); child processes interpret every program under the Cython build of the working tree and the pure-Python build, each under "
     "several PYTHONHASHSEED values (4 configurations quick, 16 thorough) and emit a canonical transcript after every operation (contents, "
     "sorted dump(), index supports, exception type names, printed forms, values with types, dependency sets, ==/hash verdicts); all "
     "transcripts of a program must be identical; a mismatch is minimised by greedy re-interpretation under the two differing configurations.",
